@@ -49,6 +49,7 @@ def check_case(doc, obs, tag='random'):
                       {'offset': where, 'around': data[max(0, where - 10):
                                                        where + 120]})
         break
+    check_exotic_arguments(doc, calls, data, obs)
     if data == want:
         obs.count('byte_identical')
         return
@@ -58,6 +59,33 @@ def check_case(doc, obs, tag='random'):
         obs.count('tolerance:json_spelling')
         return
     obs.violation('noncanonical:%s' % mech, doc, detail)
+
+
+def check_exotic_arguments(doc, calls, data, obs):
+    """The same calls with subclass instances / OrderedDicts / tuples as
+    arguments (see recipe.exotic_calls) must give the same bytes."""
+    import random
+    from mon.core import fingerprint
+    seed = fingerprint(repr(calls)) & 0xffffffff
+    if seed % 3:
+        return
+    ex = recipe.exotic_calls(calls, random.Random(seed))
+    stream = MonitoredStream()
+    obs.count('exotic_argument_runs')
+    try:
+        recipe.run_writer(ex, stream)
+    except Exception as e:
+        obs.violation('exotic_arguments:writer_rejected:%s'
+                      % common.exc_mechanism(e), doc, repr(e)[:200])
+        return
+    if stream.getvalue() != data:
+        got = stream.getvalue()
+        i = next((j for j in range(min(len(got), len(data)))
+                  if got[j] != data[j]), min(len(got), len(data)))
+        obs.violation('exotic_arguments:bytes_depend_on_argument_class', doc,
+                      {'offset': i, 'plain': data[max(0, i - 40):i + 60],
+                       'exotic': got[max(0, i - 40):i + 60],
+                       'exotic_seed': seed})
 
 
 def stress_doc(rng):
